@@ -416,7 +416,11 @@ def run_history(case, ctx):
         nviol = len(ctx.violations) + sum(ctx._viol_count.values())
         with monitor.suspended():
             backup = copy.deepcopy(c)
-            opname, thunk, desc, changes = gen_op(c, rng, step)
+            try:
+                opname, thunk, desc, changes = gen_op(c, rng, step)
+            except Exception as e:  # generator trouble is never a verdict
+                ctx.count('generator_failed:' + type(e).__name__)
+                continue
         hist.append(desc)
         try:
             r = thunk(c)
@@ -464,8 +468,9 @@ def run_shard(spec, ctx):
         case = gen_case(ctx.rng, spec)
         try:
             run_history(case, ctx)
-        except Exception as e:
-            ctx.unexpected('history driver', e, case)
+        except Exception as e:  # harness trouble: inconclusive for this history, never a violation
+            ctx.count('driver_error:' + type(e).__name__)
+            ctx.info['driver_errors'] = ctx.info.get('driver_errors', 0) + 1
 
 
 def replay(case, ctx):
